@@ -1303,3 +1303,43 @@ def run(ctx) -> None:
                "under every hash seed" % (lst, short((replaced or removed or [st])[0], 60)),
                construct="parse_component: the element of %s found by name accumulates its keys" % lst)
     ctx.floor("C19.R16-a-shared-element-accumulates-its-keys", n16, 1, "look-ups of a list element by name in parse_component")
+
+    # R3 (obligation): list values of the status section are split the way they were joined -----------------------------
+    dst_ = m.func("Dosini._dump_status")
+    pst_ = m.func("Dosini.parse_status")
+    joins = [c.func.value.value for c in source.calls_in(dst_, include_nested=True) if last_attr(c) == "join" and isinstance(c.func.value, ast.Constant)
+             and isinstance(c.func.value.value, str)]
+    ctx.require(bool(joins), "anchor missing: the separator _dump_status joins list values with")
+
+    def split_separators(f_, depth: int = 0):
+        """separators that f_ splits text on: None = any white space; follows one level of helper methods with their default separator"""
+        out = []
+        for c in source.calls_in(f_, include_nested=True):
+            if last_attr(c) == "split" and isinstance(c.func, ast.Attribute):
+                if not c.args:
+                    out.append((c, None))
+                elif isinstance(c.args[0], ast.Constant):
+                    out.append((c, c.args[0].value))
+                elif isinstance(c.args[0], ast.Name) and isinstance(f_, ast.FunctionDef):
+                    # the separator is a parameter: its default
+                    names = [a_.arg for a_ in f_.args.args]
+                    if c.args[0].id in names:
+                        i_ = names.index(c.args[0].id) - (len(names) - len(f_.args.defaults))
+                        if 0 <= i_ < len(f_.args.defaults) and isinstance(f_.args.defaults[i_], ast.Constant):
+                            out.append((c, f_.args.defaults[i_].value))
+            elif depth < 1 and isinstance(c.func, ast.Attribute) and isinstance(c.func.value, ast.Name) and c.func.value.id in ("cls", "self"):
+                helper = m.functions.get("Dosini." + c.func.attr)
+                if helper is not None and helper is not f_:
+                    seps = split_separators(helper, depth + 1)
+                    explicit = next((k.value.value for k in c.keywords if k.arg in ("separator", "sep") and isinstance(k.value, ast.Constant)),
+                                    c.args[1].value if len(c.args) > 1 and isinstance(c.args[1], ast.Constant) else "<default>")
+                    for (_, sp) in seps:
+                        out.append((c, sp if explicit == "<default>" else explicit))
+        return out
+    for (c, sp) in split_separators(pst_):
+        compatible = all((j.strip() == "" and sp in (None, j)) or (j.strip() != "" and sp == j) for j in joins)
+        ctx.ob("C19.R3-sections", c, compatible,
+               "parse_status splits list values on %s, _dump_status joins them with %r" % ("white space" if sp is None else repr(sp), joins[0]) if compatible else
+               "parse_status splits a list value on %r (%s) while _dump_status joins list values with %r: a status entry with two references - "
+               "['stage1.simulate:ref', 'stage1.analyse:ref'] - is read back as ONE reference 'stage1.simulate:ref stage1.analyse:ref'"
+               % (sp, short(c, 50), joins[0]), construct="status section: list values split as they were joined")
